@@ -88,6 +88,61 @@ def _run_history(hist, with_copies=None):
     return bad
 
 
+def run_interval_history(hist):
+    """histories of insert_interval(left, right, left_bound=lb, right_bound=rb) calls: lb <= T(right) - T(left) <= rb, a missing bound is infinite
+    (the documented meaning); checked after every call like the histories of add"""
+    from unified_planning.model.delta_stn import DeltaSimpleTemporalNetwork
+    from rtc.watchdog import limit, NonTerminating
+    stn = DeltaSimpleTemporalNetwork()
+    cons, events, bad = [], set(), []
+    try:
+        with limit(30, "interval history"):
+            for (l, r, lb, rb) in hist:
+                stn.insert_interval(l, r, left_bound=lb, right_bound=rb)
+                if lb is not None:
+                    cons.append((l, r, -lb))
+                if rb is not None:
+                    cons.append((r, l, rb))
+                events |= {l, r}
+                ok, sol = reference(events, cons)
+                if stn.check_stn() != ok:
+                    return [f"after the intervals {list(hist)}: check_stn()={stn.check_stn()} but the inserted constraints are {'consistent' if ok else 'inconsistent'}"]
+                if not ok:
+                    break
+                for e in events:
+                    if e not in stn or stn.get_stn_model(e) != sol[e]:
+                        return [f"after the intervals {list(hist)}: model[{e}]={stn.get_stn_model(e) if e in stn else None}, least non-negative solution {sol[e]}"]
+    except NonTerminating:
+        return [f"the interval history {list(hist)} did not finish within 30 s"]
+    return bad
+
+
+def interval_histories(tier, seed):
+    """exhaustive 1- and 2-call histories over 3 events with bounds None / 0 / Fraction(0) / +-1 / 2 on either side, sampled 3- and 4-call ones"""
+    ev3 = ["a", "b", "c"]
+    B_ = [None, 0, Fraction(0), 1, -1, 2, Fraction(1, 2)]
+    steps = [(l, r, lb, rb) for l in ev3 for r in ev3 if l != r for lb in B_ for rb in B_]
+    failures, evals = [], 0
+    for n in (1, 2):
+        for hist in itertools.product(steps, repeat=n):
+            evals += 1
+            bad = run_interval_history(hist)
+            if bad:
+                failures.append({"what": bad[0], "concrete": {"interval_history": [[l, r, str(lb), str(rb)] for l, r, lb, rb in hist]}, "observed": bad})
+                if len(failures) >= 3:
+                    return failures, evals
+    rng = random.Random(seed + 77)
+    for _ in range(4000 if tier == "quick" else 60000):
+        hist = [rng.choice(steps) for _ in range(rng.randint(3, 4))]
+        evals += 1
+        bad = run_interval_history(hist)
+        if bad:
+            failures.append({"what": bad[0], "concrete": {"interval_history": [[l, r, str(lb), str(rb)] for l, r, lb, rb in hist]}, "observed": bad})
+            if len(failures) >= 3:
+                break
+    return failures, evals
+
+
 def bounded(tier, seed):
     L = 3 if tier == "quick" else 4
     ev3 = ["a", "b", "c"]
@@ -145,8 +200,14 @@ def bounded(tier, seed):
         bad = run_history(hist, {rng.randrange(len(hist))} if k % 5 == 0 else None)
         if bad:
             failures.append({"what": bad[0], "concrete": {"history": [[x, y, str(b)] for x, y, b in hist]}, "observed": bad})
+    if len(failures) < 6:
+        f2, e2 = interval_histories(tier, seed)
+        failures += f2
+        evals += e2
+        nontrivial += e2
     return {"evaluations": evals, "distinct_nontrivial": nontrivial, "failures": failures[:6],
-            "rule": f"all insertion histories of length <= {L} over 3 events x bounds -2..2 (self constraints included), plus seeded "
+            "rule": f"all insertion histories of length <= {L} over 3 events x bounds -2..2 (self constraints included), insert_interval histories (all of length <= 2 over 3 events x "
+                    f"bounds None/0/Fraction(0)/1/-1/2/1/2 on either side, sampled longer ones), plus seeded "
                     f"histories of 5-14 insertions over 4-5 events (integers and halves) with copies; non-trivial = history touching "
                     f"more than one event pair", "samples": samples, "exhaustive": True,
             "bound": f"length <= {L} exhaustive over 3 events; longer histories sampled"}
@@ -154,6 +215,15 @@ def bounded(tier, seed):
 
 def replay_file(data):
     c = data["concrete"]
+    if "interval_history" in c:
+        # str() of the bound keeps int and Fraction zero apart ("0" vs "0"): both are tried
+        def dec(x, frac):
+            return None if x == "None" else (Fraction(x) if (frac or "/" in x) else int(x))
+        for frac in (False, True):
+            bad = run_interval_history([(l, r, dec(lb, frac), dec(rb, frac)) for l, r, lb, rb in c["interval_history"]])
+            if bad:
+                return {"reproduced": True, "concrete": c, "observed": bad}
+        return {"reproduced": False, "concrete": c, "observed": []}
     hist = [(x, y, Fraction(b)) for x, y, b in c["history"]]
     bad = run_history(hist, set(c.get("copies_at") or []) or None)
     return {"reproduced": bool(bad), "concrete": c, "observed": bad}
@@ -343,6 +413,74 @@ class Add(Unit):
                   z3.Implies(sat0, sat1 == z3.If(sub, z3.BoolVal(True), INCCHECK(x, y, b))))
 
 
+class InsertInterval(Unit):
+    prop = "C25"
+    name = "DeltaSimpleTemporalNetwork.insert_interval"
+    doc = ("lb <= T(right) - T(left) <= rb: add(left, right, -lb) iff a lower bound is given -- whatever its value, zero included --, then add(right, left, rb) iff an upper "
+           "bound is given; with no bound at all both events are registered at distance 0 unless they already have one; nothing else is called")
+
+    def target(self):
+        return _ds.DeltaSimpleTemporalNetwork.insert_interval
+
+    def configure(self, eng):
+        def add(e, st, a, k):
+            st.ghost["adds"] = st.ghost.get("adds", ()) + ((a[1], a[2], a[3]),)
+            yield st, PBool.fresh("add_result")
+        eng.contracts[_ds.DeltaSimpleTemporalNetwork.add] = add
+        eng.contracts[__import__("typing").cast] = lambda e, st, a, k: iter([(st, a[1])])
+
+    def setup(self, eng, st):
+        dist = eng.fresh_of(st, Map(Event, PReal), "distances")
+        dl = st.alloc(dist, "dict")
+        w = st.alloc(Rec(_ds.DeltaSimpleTemporalNetwork, {"_distances": dl}), "stn")
+        l, r = Event.fresh("left"), Event.fresh("right")
+        lb, rb = Opt(PReal).fresh("left_bound"), Opt(PReal).fresh("right_bound")
+        return [w, l, r], {"left_bound": lb, "right_bound": rb}, dict(w=w, dist=dist, l=l, r=r, lb=lb, rb=rb)
+
+    def post(self, eng, ctx, st, out):
+        if out[0] != "return":
+            return
+        adds = st.ghost.get("adds", ())
+        l, r, lb, rb = ctx["l"], ctx["r"], ctx["lb"], ctx["rb"]
+        d0, d1 = ctx["dist"], st.load(st.getfield(ctx["w"], "_distances"))
+        lb_none, rb_none = self._is_none(st, lb), self._is_none(st, rb)
+        # expected calls, as a formula over the guards of the two optional bounds
+        n_expected = z3.If(lb_none, 0, 1) + z3.If(rb_none, 0, 1)
+        st.oblige("one add per bound that is given (a bound of zero is a bound)", z3.IntVal(len(adds)) == n_expected)
+        if adds:
+            first_is_lower = z3.Not(lb_none)
+            x, y, b = adds[0]
+            st.oblige("the first call states the given lower bound as add(left, right, -lb), or -- without one -- the upper bound as add(right, left, rb)",
+                      z3.If(first_is_lower, z3.And(x.z == l.z, y.z == r.z, zreal(b) == -self._val(lb)), z3.And(x.z == r.z, y.z == l.z, zreal(b) == self._val(rb))))
+        if len(adds) >= 2:
+            x, y, b = adds[1]
+            st.oblige("the second call states the upper bound as add(right, left, rb)", z3.And(x.z == r.z, y.z == l.z, zreal(b) == self._val(rb)))
+        k = z3.Const(fresh_name("k"), _E)
+        both_none = z3.And(lb_none, rb_none)
+        st.oblige("without any bound both events are registered: their old distance, else 0; with a bound the distances are left to add",
+                  z3.If(both_none,
+                        z3.And(z3.Select(d1.has, l.z), z3.Select(d1.has, r.z),
+                               z3.Select(d1.val, l.z) == z3.If(z3.Select(d0.has, l.z), z3.Select(d0.val, l.z), 0),
+                               z3.Implies(r.z != l.z, z3.Select(d1.val, r.z) == z3.If(z3.Select(d0.has, r.z), z3.Select(d0.val, r.z), 0)),
+                               z3.ForAll([k], z3.Implies(z3.And(k != l.z, k != r.z), z3.And(z3.Select(d1.has, k) == z3.Select(d0.has, k), z3.Select(d1.val, k) == z3.Select(d0.val, k))))),
+                        d1.same(d0).z))
+
+    # the two optional bounds are SUnion values (None | real) created in setup; kept on the unit for the post-condition
+    def _is_none(self, st, v):
+        if v is None:
+            return z3.BoolVal(True)
+        if isinstance(v, SUnion):
+            return z3.Or([g for g, x in v.alts if x is None] or [z3.BoolVal(False)])
+        return z3.BoolVal(False)
+
+    def _val(self, v):
+        if isinstance(v, SUnion):
+            for g, x in v.alts:
+                if x is not None:
+                    return zreal(x)
+        return zreal(v) if v is not None else z3.RealVal(0)
+
+
 def _probe_shared_nodes():
     """directed histories for shared constraint nodes: a pair is tightened on one side of a copy, then the other side propagates through it"""
     from unified_planning.model.delta_stn import DeltaSimpleTemporalNetwork
@@ -396,7 +534,7 @@ def extra_checks(tier, seed):
     return {"nodes": n, "failures": failures, "rule": "no store to DeltaNeighbors.dst/.bound/.next in unified_planning/model/delta_stn.py"}
 
 
-UNITS = [IsSubsumed(), CopyStn(), Add()]
+UNITS = [IsSubsumed(), CopyStn(), Add(), InsertInterval()]
 LEVEL = "other"
 EXPLANATION = __doc__
 TRUSTED = ["DeltaNeighbors nodes are immutable after construction: checked syntactically on every run (extra_checks: no store to dst / bound / next in the module), not deductively",
